@@ -39,6 +39,7 @@ Judge(e) ==
   THEN << R("C04", "returns_normally", TRUE, FALSE, e.op \o "/" \o e.fn) >>
   ELSE CASE e.op \in PrimOps -> JPrims(e)
          [] e.op = "Observe" -> JObserve(e, MemFor(e))
+         [] e.op = "ReadSigned" -> << R("C08", "signed_value_obtained_and_verifies", TRUE, e.r.setup /\ e.r.verify, e.fn \o "/" \o e.cls) >>
          [] e.op \in {"Scribble", "ScribbleReturned"} -> << R("C08", "overwrite_performed", TRUE, e.r.done, e.op) >>
          [] e.op = "Read" -> JRead(e) \o JAccOne(e.fn, e["in"], e.r, e) \o JAcc2One(e.fn, e["in"], e.r, e)
          [] e.op = "Twins" -> JTwinsWith(e, JAcc2One)
